@@ -570,4 +570,242 @@ def eraseTmpl (path : Bytes) (t : PTmpl) : Option Tmpl :=
   (eraseStmts path t.root).map fun root =>
     { name := t.name, ext := t.ext, imports := t.imports, blocks := [], root := root }
 
+mutual
+theorem eraseStmt_wf (path : Bytes) : ∀ (s : PStmt) (s' : Stmt),
+    PStmt.Shaped s → eraseStmt path s = some s' → Eval.StmtWf s'
+  | .text l b, s', _, h => by cases h; trivial
+  | .action l set pipe, s', hs, h => by
+    simp only [eraseStmt, Option.bind_eq_some_iff, Option.some.injEq] at h
+    obtain ⟨st, hst, p, hp, rfl⟩ := h
+    rw [PStmt.Shaped] at hs
+    rw [Eval.StmtWf]
+    exact ⟨eraseSetOpt_wf hs.1 hs.2.1 hst, erasePipeOpt_wf hs.2.2 hp⟩
+  | .branch isIf l set e ll list els, s', hs, h => by
+    simp only [eraseStmt, Option.bind_eq_some_iff] at h
+    obtain ⟨st, hst, body, hbody, el, hel, h⟩ := h
+    rw [PStmt.Shaped] at hs
+    obtain ⟨hset, hlen, hne, he, hlist, hels⟩ := hs
+    have hbw := eraseStmts_wf path list body hlist hbody
+    have hew := eraseEls_wf path els el hels hel
+    cases isIf with
+    | true =>
+      cases e with
+      | none => simp at h
+      | some c =>
+        simp only [if_true, Option.bind_eq_some_iff, Option.some.injEq] at h
+        obtain ⟨c', hc, rfl⟩ := h
+        rw [Eval.StmtWf]
+        exact ⟨eraseSetOpt_wf hset (hlen rfl) hst, eraseExpr_wf path c c' (he c rfl) hc, hbw, hew⟩
+    | false =>
+      simp only [Bool.false_eq_true, if_false, Option.bind_eq_some_iff, Option.some.injEq] at h
+      obtain ⟨e', he', rfl⟩ := h
+      rw [Eval.StmtWf]
+      exact ⟨eraseRangeHead_wf hset hne he hst he', hbw, hew⟩
+  | .block l name params ctx ll list content, s', hs, h => by
+    simp only [eraseStmt, Option.bind_eq_some_iff, Option.some.injEq] at h
+    obtain ⟨ps, hps, ctx', hctx, body, hbody, content', hcontent, rfl⟩ := h
+    rw [PStmt.Shaped] at hs
+    rw [Eval.StmtWf]
+    exact ⟨eraseParams_wf hs.1 hps, eraseExprOpt_wf' path ctx ctx' hs.2.1 hctx,
+      eraseStmts_wf path list body hs.2.2.1 hbody, eraseEls_wf path content content' hs.2.2.2 hcontent⟩
+  | .yield l name params ctx content isC, s', hs, h => by
+    simp only [eraseStmt, Option.bind_eq_some_iff, Option.some.injEq] at h
+    obtain ⟨ps, hps, ctx', hctx, content', hcontent, rfl⟩ := h
+    rw [PStmt.Shaped] at hs
+    rw [Eval.StmtWf]
+    exact ⟨fun hc => by rw [eraseParamsOpt_isSome hps]; exact hs.1 hc, eraseParamsOpt_wf hs.2.1 hps,
+      eraseExprOpt_wf' path ctx ctx' hs.2.2.1 hctx, eraseEls_wf path content content' hs.2.2.2 hcontent⟩
+  | .include l name ctx, s', hs, h => by
+    simp only [eraseStmt, Option.bind_eq_some_iff, Option.some.injEq] at h
+    obtain ⟨name', hname, ctx', hctx, rfl⟩ := h
+    rw [PStmt.Shaped] at hs
+    rw [Eval.StmtWf]
+    exact ⟨eraseExpr_wf path name name' hs.1 hname, eraseExprOpt_wf' path ctx ctx' hs.2 hctx⟩
+  | .tryS l ll list none, s', hs, h => by
+    simp only [eraseStmt, Option.bind_eq_some_iff, Option.some.injEq] at h
+    obtain ⟨body, hbody, rfl⟩ := h
+    rw [PStmt.Shaped] at hs
+    rw [Eval.StmtWf]
+    exact ⟨eraseStmts_wf path list body hs.1 hbody, trivial⟩
+  | .tryS l ll list (some (cl, ev, cll, clist)), s', hs, h => by
+    simp only [eraseStmt, Option.bind_eq_some_iff, Option.some.injEq] at h
+    obtain ⟨body, hbody, cb, hcb, rfl⟩ := h
+    rw [PStmt.Shaped, PStmt.ShapedCatch] at hs
+    rw [Eval.StmtWf]
+    exact ⟨eraseStmts_wf path list body hs.1 hbody, eraseStmts_wf path clist cb hs.2 hcb⟩
+  | .ret l e, s', hs, h => by
+    simp only [eraseStmt, Option.bind_eq_some_iff, Option.some.injEq] at h
+    obtain ⟨e', he, rfl⟩ := h
+    rw [PStmt.Shaped] at hs
+    rw [Eval.StmtWf]
+    exact eraseExpr_wf path e e' hs he
+  | .endM, s', _, h => by simp [eraseStmt] at h
+  | .elseM _, s', _, h => by simp [eraseStmt] at h
+  | .contentM, s', _, h => by simp [eraseStmt] at h
+  | .catchM _ _ _ _, s', _, h => by simp [eraseStmt] at h
+theorem eraseStmts_wf (path : Bytes) : ∀ (l : List PStmt) (l' : List Stmt),
+    PStmt.ShapedList l → eraseStmts path l = some l' → Eval.StmtsWf l'
+  | [], l', _, h => by
+    simp only [eraseStmts, Option.some.injEq] at h; subst h; trivial
+  | s :: ss, l', hs, h => by
+    simp only [eraseStmts, Option.bind_eq_some_iff, Option.some.injEq] at h
+    obtain ⟨s', hs', ss', hss', rfl⟩ := h
+    rw [PStmt.ShapedList] at hs
+    rw [Eval.StmtsWf]
+    exact ⟨eraseStmt_wf path s s' hs.1 hs', eraseStmts_wf path ss ss' hs.2 hss'⟩
+theorem eraseEls_wf (path : Bytes) : ∀ (o : Option (Nat × List PStmt)) (o' : Option (List Stmt)),
+    PStmt.ShapedEls o → eraseEls path o = some o' → Eval.StmtsOWf o'
+  | none, o', _, h => by
+    simp only [eraseEls, Option.some.injEq] at h; subst h; trivial
+  | some (n, ns), o', hs, h => by
+    simp only [eraseEls, Option.bind_eq_some_iff, Option.some.injEq] at h
+    obtain ⟨ns', hns, rfl⟩ := h
+    rw [PStmt.ShapedEls] at hs
+    rw [Eval.StmtsOWf]
+    exact eraseStmts_wf path ns ns' hs hns
+end
+
+theorem eraseTmpl_wf {path : Bytes} {t : PTmpl} {t' : Tmpl} (hs : ∀ n ∈ t.root, PStmt.Shaped n)
+    (h : eraseTmpl path t = some t') : Eval.TmplWf t' := by
+  simp only [eraseTmpl, Option.map_eq_some_iff] at h
+  obtain ⟨root, hroot, rfl⟩ := h
+  refine ⟨?_, eraseStmts_wf path t.root root ((PStmt.shapedList_iff _).mpr hs) hroot⟩
+  intro p hp; cases hp
+
+/-! ### the block tables -/
+
+theorem StmtsWf_mem : ∀ {l : List Stmt}, Eval.StmtsWf l → ∀ s ∈ l, Eval.StmtWf s
+  | [], _, _, h => by cases h
+  | x :: xs, hw, s, h => by
+    rw [Eval.StmtsWf] at hw
+    rcases List.mem_cons.mp h with rfl | h
+    · exact hw.1
+    · exact StmtsWf_mem hw.2 s h
+
+theorem BlocksWf_nil : Eval.BlocksWf [] := by intro p hp; cases hp
+
+theorem BlocksWf_append {a b : List (Bytes × BlockN)} (ha : Eval.BlocksWf a) (hb : Eval.BlocksWf b) :
+    Eval.BlocksWf (a ++ b) := by
+  intro p hp
+  rcases List.mem_append.mp hp with h | h
+  · exact ha p h
+  · exact hb p h
+
+theorem ownRegs_wf : ∀ (fuel : Nat) (l : List Stmt), Eval.StmtsWf l → Eval.BlocksWf (Blocks.ownRegs fuel l)
+  | 0, _, _ => by rw [Blocks.ownRegs]; exact BlocksWf_nil
+  | fuel + 1, l, hl => by
+    have ih := ownRegs_wf fuel
+    have iho : ∀ o : Option (List Stmt), Eval.StmtsOWf o →
+        Eval.BlocksWf (match o with | some c => Blocks.ownRegs fuel c | none => []) := by
+      intro o ho
+      cases o with
+      | none => exact BlocksWf_nil
+      | some c => exact ih c ho
+    rw [Blocks.ownRegs]
+    intro p hp
+    obtain ⟨s, hsl, hps⟩ := List.mem_flatMap.mp hp
+    have hs := StmtsWf_mem hl s hsl
+    clear hp
+    revert p
+    show Eval.BlocksWf _
+    cases s with
+    | block loc name params ctx body content =>
+      rw [Eval.StmtWf] at hs
+      refine BlocksWf_append (BlocksWf_append (ih body hs.2.2.1) (iho content hs.2.2.2)) ?_
+      intro p hp
+      rw [List.mem_singleton] at hp
+      subst hp
+      exact ⟨hs.1, hs.2.1, hs.2.2.1, hs.2.2.2⟩
+    | ifS loc set cond thn els =>
+      rw [Eval.StmtWf] at hs
+      exact BlocksWf_append (ih thn hs.2.2.1) (iho els hs.2.2.2)
+    | rangeS loc set e body els =>
+      rw [Eval.StmtWf] at hs
+      exact BlocksWf_append (ih body hs.2.1) (iho els hs.2.2)
+    | yield loc name params ctx content isC =>
+      rw [Eval.StmtWf] at hs
+      exact iho content hs.2.2.2
+    | tryS loc body hc cv cb =>
+      rw [Eval.StmtWf] at hs
+      exact BlocksWf_append (ih body hs.1) (iho cb hs.2)
+    | _ => exact BlocksWf_nil
+
+theorem mem_aset {β} (k : Bytes) (v : β) : ∀ (t : List (Bytes × β)) (p : Bytes × β),
+    p ∈ Eval.aset k v t → p = (k, v) ∨ p ∈ t
+  | [], p, h => by
+    rw [Eval.aset, List.mem_singleton] at h
+    exact Or.inl h
+  | (k', v') :: rest, p, h => by
+    rw [Eval.aset] at h
+    split at h
+    · rcases List.mem_cons.mp h with h | h
+      · exact Or.inl h
+      · exact Or.inr (List.mem_cons_of_mem _ h)
+    · rcases List.mem_cons.mp h with h | h
+      · exact Or.inr (h ▸ List.mem_cons_self)
+      · rcases mem_aset k v rest p h with h | h
+        · exact Or.inl h
+        · exact Or.inr (List.mem_cons_of_mem _ h)
+
+theorem aset_wf (k : Bytes) (v : BlockN) (t : List (Bytes × BlockN)) (hv : Eval.BlockWf v)
+    (ht : Eval.BlocksWf t) : Eval.BlocksWf (Eval.aset k v t) := by
+  intro p hp
+  rcases mem_aset k v t p hp with rfl | h
+  · exact hv
+  · exact ht p h
+
+theorem addAll_wf : ∀ (src t : List (Bytes × BlockN)), Eval.BlocksWf t → Eval.BlocksWf src →
+    Eval.BlocksWf (Blocks.addAll t src)
+  | [], t, ht, _ => ht
+  | kv :: src, t, ht, hsrc => by
+    show Eval.BlocksWf (Blocks.addAll (Eval.aset kv.1 kv.2 t) src)
+    exact addAll_wf src _ (aset_wf _ _ _ (hsrc kv List.mem_cons_self) ht)
+      (fun p hp => hsrc p (List.mem_cons_of_mem _ hp))
+
+theorem foldl_addAll_wf : ∀ (imports : List (List (Bytes × BlockN))) (ext : List (Bytes × BlockN)),
+    Eval.BlocksWf ext → (∀ i ∈ imports, Eval.BlocksWf i) → Eval.BlocksWf (imports.foldl Blocks.addAll ext)
+  | [], ext, he, _ => he
+  | i :: imports, ext, he, hi => by
+    rw [List.foldl_cons]
+    exact foldl_addAll_wf imports _ (addAll_wf i ext he (hi i List.mem_cons_self))
+      (fun j hj => hi j (List.mem_cons_of_mem _ hj))
+
+theorem processed_wf (ext : List (Bytes × BlockN)) (imports : List (List (Bytes × BlockN)))
+    (own : List (Bytes × BlockN)) (he : Eval.BlocksWf ext) (hi : ∀ i ∈ imports, Eval.BlocksWf i)
+    (ho : Eval.BlocksWf own) : Eval.BlocksWf (Blocks.processed ext imports own) :=
+  addAll_wf own _ (foldl_addAll_wf imports ext he hi) ho
+
+theorem tableOf_wf (store : List (Bytes × Option Tmpl))
+    (h : ∀ p ∈ store, ∀ t, p.2 = some t → Eval.StmtsWf t.root) :
+    ∀ (fuel : Nat) (name : Bytes), Eval.BlocksWf (Blocks.tableOf store fuel name)
+  | 0, _ => by rw [Blocks.tableOf]; exact BlocksWf_nil
+  | fuel + 1, name => by
+    rw [Blocks.tableOf]
+    split
+    · rename_i n t hf
+      have hmem := List.mem_of_find?_eq_some hf
+      apply processed_wf
+      · cases t.ext with
+        | none => exact BlocksWf_nil
+        | some e => exact tableOf_wf store h fuel e
+      · intro i hi
+        obtain ⟨nm, _, rfl⟩ := List.mem_map.mp hi
+        exact tableOf_wf store h fuel nm
+      · exact ownRegs_wf 64 t.root (h _ hmem t rfl)
+    · exact BlocksWf_nil
+
+/-- the last step of `execSrcCmd`: every usable template gets its effective block table -/
+def withBlocks (usable : List (Bytes × Option Tmpl)) : List (Bytes × Option Tmpl) :=
+  usable.map fun (p, t) => (p, t.map fun tm => { tm with blocks := Blocks.tableOf usable 32 p })
+
+theorem withBlocks_envWf (usable : List (Bytes × Option Tmpl))
+    (h : ∀ p ∈ usable, ∀ t, p.2 = some t → Eval.StmtsWf t.root) (env : Eval.Env)
+    (hs : env.store = withBlocks usable) : Eval.EnvWf env := by
+  intro p hp t ht
+  rw [hs, withBlocks] at hp
+  obtain ⟨⟨q, tq⟩, hq, rfl⟩ := List.mem_map.mp hp
+  simp only [Option.map_eq_some_iff] at ht
+  obtain ⟨tm, rfl, rfl⟩ := ht
+  exact ⟨tableOf_wf usable h 32 q, h _ hq tm rfl⟩
+
 end JetVerif.Parse
